@@ -225,7 +225,7 @@ def run_e2e_sync(case):
         t = threading.Thread(target=work, daemon=True)
         t.start()
         t0 = time.time()
-        while len(c.sent) == n0 and time.time() - t0 < 5:
+        while len(c.sent) == n0 and time.time() - t0 < 120:
             time.sleep(0.0005)
         threads.append(t)
     packets, records, final = e2e_device(case, c.sent)
